@@ -43,7 +43,7 @@ Policy(r, t) ==
   ELSE CASE reg[r].type = "init"   -> FALSE                         \* never again
          [] reg[r].type = "every"  -> t >= lastStart[r] + reg[r].iv - TOL
          [] reg[r].type = "expire" -> \/ t >= Max(lastStart[r], lastUpd[r]) + reg[r].iv - TOL   \* a full interval without update
-                                      \/ /\ lastUpd[r] # None /\ t <= lastUpd[r] + TOL /\ gone.upd[r] # None          \* ... or due, with an update arriving at this very instant
+                                      \/ /\ lastUpd[r] # None /\ t <= lastUpd[r] + TOL          \* ... or due, with an update (also the first one) arriving at this very instant
                                          /\ t >= Max(lastStart[r], gone.upd[r]) + reg[r].iv - TOL
 Simultaneous(t, g) == g # None /\ t <= g + TOL
 ReadStart(r, t) == /\ InProgress < MAXPAR                           \* at most two reads in progress
